@@ -27,6 +27,9 @@ import RuxModel.Model.Dispatch
               is running; that is outside the model: the token is dropped, and a request to a route with such a handler
               is answered `unsupported` (the harness checks it with the fresh-router oracle only). Every OTHER request
               is answered as always: a later request must not notice what became of the pooled context.
+              `aw:<code>` = `c.AbortWithStatus(code)` = `c.Resp.WriteHeader(code); c.Abort()`: for the model `wh:<code>,ab`;
+              `am:<code>:<msg>` = `c.AbortWithStatus(code, msg)` = `http.Error(c.Resp, msg, code); c.Abort()`: WriteHeader
+              and one Write of `msg + "\n"` on `c.Resp` (response headers are not modelled): `wh:<code>,wr:<msg 0a>,ab`
   panic value pv = s.<hex> | e.<hex> | i.<int> | rn | ri | h.<name>.<hex> | w.<name>.<hex>
               (h/w: an error sentinel of net/http, io, context, bare or wrapped; for the model an error with that text)
   answer to serve:  <ret | panic:<pv> | unsupported> t=<trace> l=<writer log> ;; pr=0
@@ -154,7 +157,15 @@ def isSH (t : String) : Bool :=
 /-- the handler token contains a `sh:<id>` action -/
 def hasSH (s : String) : Bool := (s.splitOn ",").any isSH
 
-def actToks (s : String) : List String := (s.splitOn ",").filter (fun t => t ≠ "kc" && !isSH t)
+/-- `AbortWithStatus(code[, msg])` as the calls it makes -/
+def expandAbort (t : String) : List String :=
+  match t.splitOn ":" with
+  | ["aw", c] => ["wh:" ++ c, "ab"]
+  | ["am", c, m] => ["wh:" ++ c, "wr:" ++ (if m = "-" then "" else m) ++ "0a", "ab"]
+  | _ => [t]
+
+def actToks (s : String) : List String :=
+  ((s.splitOn ",").filter (fun t => t ≠ "kc" && !isSH t)).flatMap expandAbort
 
 def parseSHandler (s : String) : Option (List SAct) :=
   if s = "-" then some [] else (actToks s).mapM parseSAct
